@@ -408,9 +408,10 @@ def oracle(ctx):
     recs = []
     batch = 12
     done = 0
-    while done < n and (done == 0 or ctx.time_left() > t0 * 0.5):
+    mandatory = 24      # projects that are always evaluated completely, whatever the machine load is
+    while done < n and (done < mandatory or ctx.time_left() > t0 * 0.5):
         plan = _plan_range(ctx, done, min(n, done + batch), nedits)
-        part = _evaluate_projects(ctx, plan, "p%d" % done, t0 * 0.3 if done else -1)
+        part = _evaluate_projects(ctx, plan, "p%d" % done, t0 * 0.3 if done >= mandatory else -1)
         for rec in part:
             check_project(ctx, rec)
         if len(recs) < 100:      # kept for the correspondence
